@@ -729,7 +729,7 @@ pub fn apply_request_faults(
         Some(Forced::Kind(k)) => Some(*k),
         _ => None,
     };
-    let mut want = |plan: &mut CallPlan, k: FK| -> bool { forced_kind == Some(k) || (forced_kind.is_none() && forced.is_none() && plan.want(ctx, k)) };
+    let want = |plan: &mut CallPlan, k: FK| -> bool { forced_kind == Some(k) || (forced_kind.is_none() && forced.is_none() && plan.want(ctx, k)) };
 
     if is_json && !sent.streaming {
         // ---- content edits (value-preserving first)
@@ -919,7 +919,7 @@ pub fn apply_response_faults(
         Some(Forced::Kind(k)) => Some(*k),
         _ => None,
     };
-    let mut want = |plan: &mut CallPlan, k: FK| -> bool { forced_kind == Some(k) || (forced_kind.is_none() && forced.is_none() && plan.want(ctx, k)) };
+    let want = |plan: &mut CallPlan, k: FK| -> bool { forced_kind == Some(k) || (forced_kind.is_none() && forced.is_none() && plan.want(ctx, k)) };
     let mut bytes = wire.body.clone();
     let is_json = wire.header("content-type") == Some(JSON_CT);
     let ret_ty = ep.and_then(|e| e.returns.clone());
